@@ -150,8 +150,11 @@ func normalizeRetryAfter(
 	switch retryAfterType {
 
 	case sharedConfig.RetryAfterAbsoluteEpoch:
-		now := clock.Now().Unix()
-		return retryAfterNum - float64(now), nil
+		// Compare with the clock at full precision: truncating it to whole
+		// seconds kept the response for up to a second past the
+		// provider's retry-after time.
+		retryAt := time.Unix(0, int64(retryAfterNum*float64(time.Second)))
+		return retryAt.Sub(clock.Now()).Seconds(), nil
 
 	case sharedConfig.RetryAfterRelativeSeconds:
 		return retryAfterNum, nil
